@@ -181,7 +181,7 @@ Fixpoint gev (g : gst) (q : N) (w : bytes) : list lexev :=
                else gev GIn (N.succ q) r
     | GIn => if is_nl c then [E NewLine (q - 1) (q - 1); E NewLine q q] ++ gev GOut (N.succ q) r
              else gev GIn (N.succ q) r
-    | GHash2 => if ch c 35 then blk else []
+    | GHash2 => if ch c 35 then gev GBlock (N.succ q) r else []     (* the third # of the opener *)
     | GBlock => if ch c 35 then blk else gev GBlock (N.succ q) r
     end
   end.
@@ -289,6 +289,9 @@ Ltac blia := unfold plainc, is_blank, is_space, is_nl, is_digit, is_digit19, is_
 Ltac ev_run :=
   lazy beta iota zeta delta -[is_nl is_blank is_space ch is_digit is_digit19 is_hex is_ctl is_name bN
                               N.succ N.sub N.add N.of_nat len app nls gev rev].
+Ltac ev_run_keep :=
+  lazy beta iota zeta delta -[is_nl is_blank is_space ch is_digit is_digit19 is_hex is_ctl is_name bN
+                              N.succ N.sub N.add N.of_nat len app nls gev rev existsb ev_eqb].
 (* evaluation with a concrete byte: the tests compute *)
 Ltac ev_all := lazy beta iota zeta delta -[N.succ N.sub N.add N.of_nat len app nls gev rev].
 
@@ -328,8 +331,18 @@ Ltac step_tac c := step_with ev_run c.
 Ltac step_conc c := step_with ev_all c.
 
 (* ---- transitions between classes of scanner states ---- *)
+(* no inline annotation is open (fix: stateMultiLineComment sets the annotation mode back to inline when
+   one is; in plain JSON none ever is) *)
+Definition noiab (stk : list (ev * N)) : bool :=
+  forallb (fun p => match fst p with InlineAnnotationBegin => false | _ => true end) stk.
+Lemma noiab_existsb stk :
+  existsb (fun p => ev_eqb (fst p) InlineAnnotationBegin) stk = negb (noiab stk).
+Proof.
+  induction stk as [|[t b] r IH]; [reflexivity|]. cbn [existsb noiab forallb fst]. fold (noiab r). rewrite IH.
+  destruct t; reflexivity.
+Qed.
 Definition Cfg (fp : st -> Prop) (rts : list st) (stk : list (ev * N)) (n : nat) (u : bool) (s : sc) : Prop :=
-  exists f pcs cx bnd al, fp f /\ length pcs = n /\
+  exists f pcs cx bnd al, fp f /\ length pcs = n /\ noiab stk = true /\
     s = mksc f rts stk pcs cx [] ANone u false bnd al false false false.
 
 (* the state reached may depend on the byte before the first one (fix 542fa4b: the LF of a CRLF) *)
@@ -388,11 +401,15 @@ Proof.
   split; [exact Hq|]. cbn [app]. rewrite K, len_cons, len_nil. f_equal. lia.
 Qed.
 
+Ltac noiab_solve :=
+  repeat match goal with H : noiab _ = true |- _ => progress cbn [noiab forallb fst andb] in H end;
+  cbn [noiab forallb fst andb]; first [ assumption | reflexivity ].
 Ltac cfg_solve :=
-  do 5 eexists; refine (conj _ (conj _ eq_refl));
+  do 5 eexists; refine (conj _ (conj _ (conj _ eq_refl)));
   [ first [ reflexivity | left; reflexivity | right; reflexivity | right; left; reflexivity
           | right; right; left; reflexivity | right; right; right; reflexivity | assumption ]
-  | cbn [length]; first [ assumption | reflexivity | congruence | lia ] ].
+  | cbn [length]; first [ assumption | reflexivity | congruence | lia ]
+  | noiab_solve ].
 
 (* ---- the classes of states ---- *)
 Inductive vsk := VRoot | VObj | VArr.
@@ -447,7 +464,7 @@ Lemma T_blank1 f c idx stk n :
   Tr (Cfg (eq f) [] stk n false) idx [c] (nl1 idx c)
      (Cfg (fun g => g = f \/ g = after_blank f c) [] stk n false).
 Proof.
-  intros Hw Hb. apply Tr_one_pb. intros s [f0 [pcs [cx [bnd [al [Hf [Hn ->]]]]]]] pb r acc. subst f0.
+  intros Hw Hb. apply Tr_one_pb. intros s [f0 [pcs [cx [bnd [al [Hf [Hn [Hni ->]]]]]]]] pb r acc. subst f0.
   unfold nl1, after_blank.
   destruct f; try discriminate Hw;
     (destruct (is_nl c) eqn:Hnl;
@@ -461,7 +478,7 @@ Lemma Tr_class (fp : st -> Prop) rts stk n u idx bs evs Q :
   (forall f, fp f -> Tr (Cfg (eq f) rts stk n u) idx bs evs Q) -> Tr (Cfg fp rts stk n u) idx bs evs Q.
 Proof.
   intros H s [f [pcs [cx [bnd [al [Hf [Hn K]]]]]]]. apply (H f Hf).
-  exists f, pcs, cx, bnd, al. split; [reflexivity|]. split; assumption.
+  exists f, pcs, cx, bnd, al. split; [reflexivity|]. split; [exact Hn|exact K].
 Qed.
 Lemma Cfg_sub (fp fq : st -> Prop) rts stk n u s : (forall f, fp f -> fq f) -> Cfg fp rts stk n u s -> Cfg fq rts stk n u s.
 Proof.
@@ -500,7 +517,7 @@ Proof.
   exfalso. apply Hne. reflexivity.
 Qed.
 
-Ltac one_step c := apply Tr_one; intros s [f [pcs [cx [bnd [al [Hf [Hn ->]]]]]]].
+Ltac one_step c := apply Tr_one; intros s [f [pcs [cx [bnd [al [Hf [Hn [Hni ->]]]]]]]].
 Ltac split_fp Hf f :=
   repeat match type of Hf with _ \/ _ => destruct Hf as [Hf|Hf] end; subst f.
 Ltac fin_step c := eexists; split; cycle 1; [intros pb r acc; step_tac c|cfg_solve].
@@ -591,7 +608,7 @@ Ltac step_back_with ev c :=
 Lemma T_hash f idx stk n : waiting f = true ->
   Tr (Cfg (eq f) [] stk n false) idx [x23] [] (Cfg (eq AnyCommentStart) [f] stk n false).
 Proof.
-  intros Hw. apply Tr_one. intros s [f0 [pcs [cx [bnd [al [Hf [Hn ->]]]]]]]. subst f0.
+  intros Hw. apply Tr_one. intros s [f0 [pcs [cx [bnd [al [Hf [Hn [Hni ->]]]]]]]]. subst f0.
   destruct f; try discriminate Hw; fin_conc x23.
 Qed.
 Lemma T_cs_body g c idx stk n : ch c 35 = false -> is_nl c = false ->
@@ -606,7 +623,7 @@ Lemma T_c_end h g c idx stk n :
   Tr (Cfg (eq h) [g] stk n false) idx [c] [E NewLine (idx - 1) (idx - 1); E NewLine idx idx]
      (Cfg (fun f => f = g \/ f = after_blank g c) [] stk n false).
 Proof.
-  intros Hh Hnl Hw. apply Tr_one_pb. intros s [f0 [pcs [cx [bnd [al [Hf [Hn ->]]]]]]] pb r acc. subst f0.
+  intros Hh Hnl Hw. apply Tr_one_pb. intros s [f0 [pcs [cx [bnd [al [Hf [Hn [Hni ->]]]]]]]] pb r acc. subst f0.
   assert (H35 : ch c 35 = false) by blia.
   unfold after_blank.
   destruct Hh as [-> | ->]; (destruct g; try discriminate Hw; rewrite ?Hnl;
@@ -634,32 +651,36 @@ Proof.
   cbn [frev rev_append process_finds]. destruct s1; cbn in Hk |- *. rewrite Hk. reflexivity.
 Qed.
 
-Lemma block_stay_step h g c l stk n idx s :
-  Cfg (eq h) [g] stk n false s ->
-  h = MultiLineComment \/ (h = MultiLineCommentStart /\ ch c 35 = true) -> term3 c l = false ->
+(* the third # belongs to the opener (fix 7ac9eeb) *)
+Lemma T_block_open g idx stk n :
+  Tr (Cfg (eq MultiLineCommentStart) [g] stk n false) idx [x23] [] (Cfg (eq MultiLineComment) [g] stk n false).
+Proof. one_step x23. subst f. fin_conc x23. Qed.
+
+Lemma block_stay_step g c l stk n idx s :
+  Cfg (eq MultiLineComment) [g] stk n false s -> term3 c l = false ->
   forall pb acc, exists s', Cfg (eq MultiLineComment) [g] stk n false s' /\
                             run s idx pb (c :: l) acc = run s' (N.succ idx) (Some c) l acc.
 Proof.
-  intros [f [pcs [cx [bnd [al [Hf [Hn ->]]]]]]] Hh Ht pb acc. subst f. unfold term3 in Ht.
+  intros [f [pcs [cx [bnd [al [Hf [Hn [Hni ->]]]]]]]] Ht pb acc. subst f. unfold term3 in Ht.
   destruct l as [|x [|y l']];
     try (destruct (ch x 35) eqn:Ex; destruct (ch y 35) eqn:Ey);
-    (destruct Hh as [-> |[-> H35]]; [destruct (ch c 35) eqn:H35|rewrite H35 in Ht];
-     cbn [andb] in Ht; try discriminate Ht;
+    (destruct (ch c 35) eqn:H35; cbn [andb] in Ht; try discriminate Ht;
      (eexists; split; cycle 1; [step_tac c|cfg_solve])).
 Qed.
 
-Lemma block_end_step h g c x y l stk n idx s :
-  Cfg (eq h) [g] stk n false s ->
-  h = MultiLineComment \/ h = MultiLineCommentStart ->
+Lemma block_end_step g c x y l stk n idx s :
+  Cfg (eq MultiLineComment) [g] stk n false s ->
   ch c 35 = true -> ch x 35 = true -> ch y 35 = true ->
   forall pb acc, exists s', Cfg (eq g) [] stk n false s' /\
                             run s idx pb (c :: x :: y :: l) acc = run s' (idx + 3) (Some y) l acc.
 Proof.
-  intros [f [pcs [cx [bnd [al [Hf [Hn ->]]]]]]] Hh H1 H2 H3 pb acc. subst f.
-  destruct Hh as [-> | ->];
-    (eexists; split; cycle 1;
-     [eapply run_step_skip; [intros ?k; ev_run; decide_tests c; ev_run; try reflexivity|reflexivity|reflexivity|reflexivity]
-     |cfg_solve]).
+  intros [f [pcs [cx [bnd [al [Hf [Hn [Hni ->]]]]]]]] H1 H2 H3 pb acc. subst f.
+  eexists; split; cycle 1.
+  - eapply run_step_skip;
+      [intros ?k; lazy beta iota delta [dispatch]; unfold st_multi_line_comment;
+       rewrite H1, H2, H3; cbn [andb]; ev_run_keep; rewrite noiab_existsb, Hni; cbn [negb]; reflexivity
+      |reflexivity|reflexivity|reflexivity].
+  - cfg_solve.
 Qed.
 
 (* the first step may depend on the look-ahead into the bytes that follow *)
@@ -700,7 +721,7 @@ Fixpoint gap_from (g : gst) (fin : bool) (w : bytes) : bool :=
     | GHash => if ch c 35 then gap_from GHash2 fin r
                else if is_nl c then gap_from GOut fin r else gap_from GIn fin r
     | GIn => if is_nl c then gap_from GOut fin r else gap_from GIn fin r
-    | GHash2 => if ch c 35 then blk else false
+    | GHash2 => if ch c 35 then gap_from GBlock fin r else false
     | GBlock => if ch c 35 then blk else gap_from GBlock fin r
     end
   end.
@@ -771,29 +792,28 @@ Proof.
     eapply Tr_cons; [|apply (I1 _ Hw)|reflexivity].
     eapply Tr_weaken; [apply (T_c_end h g c); assumption|intros ? HH; exact HH|].
     intros s Hs. eapply Cfg_sub; [|exact Hs]. intros f0 [->| ->]; [exact Hg|apply Hab]. }
-  assert (Hblk : forall h g, fp g -> h = MultiLineComment \/ h = MultiLineCommentStart -> ch c 35 = true ->
+  assert (Hblk : forall g, fp g -> ch c 35 = true ->
             match w with
             | x :: y :: r' => if (ch x 35 && ch y 35)%bool then gap_from GOut fin r' else gap_from GBlock fin w
             | _ => false
             end = true ->
-            Tr (Cfg (eq h) [g] stk n false) idx (c :: w)
+            Tr (Cfg (eq MultiLineComment) [g] stk n false) idx (c :: w)
                match w with
                | x :: y :: r' => if (ch x 35 && ch y 35)%bool then gev GOut (idx + 3) r' else gev GBlock (N.succ idx) w
                | _ => []
                end (GQ fin fp stk n)).
-  { intros h g Hg Hh H35 Hw. destruct w as [|x [|y r']]; try discriminate Hw.
+  { intros g Hg H35 Hw. destruct w as [|x [|y r']]; try discriminate Hw.
     destruct (ch x 35 && ch y 35)%bool eqn:Exy.
     - apply andb_prop in Exy. destruct Exy as [Ex Ey].
       assert (Hlen : (length r' <= m)%nat) by (cbn [length] in Hm; lia).
       eapply Tr_step_skip; [|apply (proj1 (IH r' Hlen (idx + 3)%N) Hw)].
       intros s Hs pb rest acc.
-      destruct (block_end_step h g c x y (r' ++ rest) stk n idx s Hs Hh H35 Ex Ey pb acc) as [s' [Hq E1]].
+      destruct (block_end_step g c x y (r' ++ rest) stk n idx s Hs H35 Ex Ey pb acc) as [s' [Hq E1]].
       exists s'. split; [|exact E1]. eapply Cfg_sub; [|exact Hq]. intros f <-. exact Hg.
     - eapply Tr_step_la; [|apply (I2 _ GBlock g); [discriminate|exact Hg|exact Hw]].
       intros s Hs pb rest acc.
-      apply (block_stay_step h g c ((x :: y :: r') ++ rest) stk n idx s Hs).
-      + destruct Hh as [-> | ->]; [left; reflexivity|right; split; [reflexivity|exact H35]].
-      + unfold term3. cbn [app]. rewrite Exy. apply andb_false_r. }
+      apply (block_stay_step g c ((x :: y :: r') ++ rest) stk n idx s Hs).
+      unfold term3. cbn [app]. rewrite Exy. apply andb_false_r. }
   split.
   - intros H. destruct (gap_cons_cases fin c w H) as [[Hb [Hh Hw]]|[-> Hw]].
     + cbn [gev]. rewrite Hh. fold (nl1 idx c). eapply Tr_cons; [|apply (I1 _ Hw)|reflexivity].
@@ -815,15 +835,16 @@ Proof.
       cbn [gap_from gev]. destruct (is_nl c) eqn:Enl; intros Hw.
       * apply Hend; auto.
       * eapply Tr_cons; [apply T_c_body; assumption|apply (I2 _ GIn g); [discriminate|exact Hg|exact Hw]|reflexivity].
-    + (* after '##' *)
-      cbn [gap_from gev]. destruct (ch c 35) eqn:Eh; [|discriminate]. intros Hw. apply Hblk; auto.
+    + (* after '##': the third # of the opener *)
+      cbn [gap_from gev]. destruct (ch c 35) eqn:Eh; [|discriminate]. intros Hw.
+      rewrite (ch_byte c 35 x23 Eh eq_refl).
+      eapply Tr_cons; [apply T_block_open|apply (I2 _ GBlock g); [discriminate|exact Hg|exact Hw]|reflexivity].
     + (* inside a block comment *)
       cbn [gap_from gev]. destruct (ch c 35) eqn:Eh; intros Hw.
       * apply Hblk; auto.
       * eapply Tr_step_la; [|apply (I2 _ GBlock g); [discriminate|exact Hg|exact Hw]].
-        intros s Hs pb rest acc. apply (block_stay_step MultiLineComment g c (w ++ rest) stk n idx s Hs).
-        -- left. reflexivity.
-        -- unfold term3. rewrite Eh. reflexivity.
+        intros s Hs pb rest acc. apply (block_stay_step g c (w ++ rest) stk n idx s Hs).
+        unfold term3. rewrite Eh. reflexivity.
 Qed.
 
 Lemma GQ_false fp stk n s : GQ false fp stk n s -> Cfg fp [] stk n false s.
@@ -1052,7 +1073,7 @@ Proof.
 Qed.
 
 (* ---- true false null ---- *)
-Ltac conc_step c := apply Tr_one; intros s [f [pcs [cx [bnd [al [Hf [Hn ->]]]]]]]; subst f; fin_conc c.
+Ltac conc_step c := apply Tr_one; intros s [f [pcs [cx [bnd [al [Hf [Hn [Hni ->]]]]]]]]; subst f; fin_conc c.
 Lemma T_w1 stk n idx u : Tr (Cfg (eq ST) [] stk n u) idx [x72] [] (Cfg (eq STr) [] stk n u).
 Proof. conc_step x72. Qed.
 Lemma T_w2 stk n idx u : Tr (Cfg (eq STr) [] stk n u) idx [x75] [] (Cfg (eq STru) [] stk n u).
@@ -1137,7 +1158,7 @@ Definition lit_end (lit : bool) (p e : N) : list lexev := if lit then [E Literal
 
 Ltac done_cases lit Hs :=
   destruct lit; cbn [VDone lit_end] in Hs |- *;
-  destruct Hs as [f [pcs [cx [bnd [al [Hf [Hn ->]]]]]]];
+  destruct Hs as [f [pcs [cx [bnd [al [Hf [Hn [Hni ->]]]]]]]];
   [destruct Hf as [Hf|[Hf|[Hf|Hf]]]; subst f|subst f].
 
 Lemma T_item_blank lit p b c idx stk n : is_blank c = true ->
@@ -1173,7 +1194,7 @@ Lemma T_after_item_close a c idx stk n : ch c 93 = true ->
      (Cfg (eq EndValue) [] stk n false).
 Proof.
   intros Hc. rewrite (ch_byte c 93 x5d Hc eq_refl). apply Tr_one.
-  intros s [f [pcs [cx [bnd [al [Hf [Hn ->]]]]]]]; subst f.
+  intros s [f [pcs [cx [bnd [al [Hf [Hn [Hni ->]]]]]]]]; subst f.
   destruct pcs as [|c0 pcs]; [discriminate Hn|]; cbn [length] in Hn. fin_conc x5d.
 Qed.
 Lemma T_arr_empty_close a c idx stk n : ch c 93 = true ->
@@ -1181,7 +1202,7 @@ Lemma T_arr_empty_close a c idx stk n : ch c 93 = true ->
      (Cfg (eq EndValue) [] stk n false).
 Proof.
   intros Hc. rewrite (ch_byte c 93 x5d Hc eq_refl). apply Tr_one.
-  intros s [f [pcs [cx [bnd [al [Hf [Hn ->]]]]]]]; subst f.
+  intros s [f [pcs [cx [bnd [al [Hf [Hn [Hni ->]]]]]]]]; subst f.
   destruct pcs as [|c0 pcs]; [discriminate Hn|]; cbn [length] in Hn. fin_conc x5d.
 Qed.
 
@@ -1218,7 +1239,7 @@ Lemma T_after_val_close a c idx stk n : ch c 125 = true ->
      (Cfg (eq EndValue) [] stk n false).
 Proof.
   intros Hc. rewrite (ch_byte c 125 x7d Hc eq_refl). apply Tr_one.
-  intros s [f [pcs [cx [bnd [al [Hf [Hn ->]]]]]]]; subst f.
+  intros s [f [pcs [cx [bnd [al [Hf [Hn [Hni ->]]]]]]]]; subst f.
   destruct pcs as [|c0 pcs]; [discriminate Hn|]; cbn [length] in Hn. fin_conc x7d.
 Qed.
 Lemma T_obj_empty_close a c idx stk n : ch c 125 = true ->
@@ -1226,7 +1247,7 @@ Lemma T_obj_empty_close a c idx stk n : ch c 125 = true ->
      (Cfg (eq EndValue) [] stk n false).
 Proof.
   intros Hc. rewrite (ch_byte c 125 x7d Hc eq_refl). apply Tr_one.
-  intros s [f [pcs [cx [bnd [al [Hf [Hn ->]]]]]]]; subst f.
+  intros s [f [pcs [cx [bnd [al [Hf [Hn [Hni ->]]]]]]]]; subst f.
   destruct pcs as [|c0 pcs]; [discriminate Hn|]; cbn [length] in Hn. fin_conc x7d.
 Qed.
 
@@ -1242,7 +1263,7 @@ Lemma T_key_blank b c idx stk n : is_blank c = true ->
   Tr (Cfg (eq EndValue) [] ((ObjectKeyBegin, b) :: stk) n false) idx [c]
      ([E ObjectKeyEnd b (idx - 1)] ++ nl1 idx c) (Cfg (eq AfterObjectKey) [] stk n false).
 Proof.
-  intros Hb. unfold nl1. apply Tr_one. intros s [f [pcs [cx [bnd [al [Hf [Hn ->]]]]]]]; subst f.
+  intros Hb. unfold nl1. apply Tr_one. intros s [f [pcs [cx [bnd [al [Hf [Hn [Hni ->]]]]]]]]; subst f.
   destruct (is_nl c) eqn:Hnl; fin_step c.
 Qed.
 Lemma T_key_colon b c idx stk n : ch c 58 = true ->
@@ -1635,7 +1656,7 @@ Lemma scan_closed bs evs (fp : st -> Prop) n u :
   (forall f, fp f -> unfinished_step f = false) ->
   Tr (Cfg (vs_fp VRoot) [] [] 0 false) 0 bs evs (Cfg fp [] [] n u) -> scan false bs = (evs, Done).
 Proof.
-  intros Hu H. destruct (H _ cfg_new None [] []) as [s' [pb' [[f [pcs [cx [bnd [al [Hf [Hn ->]]]]]]] E1]]].
+  intros Hu H. destruct (H _ cfg_new None [] []) as [s' [pb' [[f [pcs [cx [bnd [al [Hf [Hn [Hni ->]]]]]]]] E1]]].
   rewrite app_nil_r in E1. unfold scan. rewrite E1.
   cbn [run s_stk s_step length tail]. rewrite (Hu f Hf). rewrite app_nil_r, frev_rev, rev_involutive. reflexivity.
 Qed.
@@ -1644,7 +1665,7 @@ Lemma scan_open_lit bs evs (fp : st -> Prop) p n :
   Tr (Cfg (vs_fp VRoot) [] [] 0 false) 0 bs evs (Cfg fp [] [(LiteralBegin, p)] n false) ->
   scan false bs = (evs ++ [E LiteralEnd p (len bs - 1)], Done).
 Proof.
-  intros Hu H. destruct (H _ cfg_new None [] []) as [s' [pb' [[f [pcs [cx [bnd [al [Hf [Hn ->]]]]]]] E1]]].
+  intros Hu H. destruct (H _ cfg_new None [] []) as [s' [pb' [[f [pcs [cx [bnd [al [Hf [Hn [Hni ->]]]]]]]] E1]]].
   rewrite app_nil_r in E1. unfold scan. rewrite E1.
   cbn [run s_stk length tail]. cbn. rewrite (Hu f Hf). cbv beta iota. rewrite app_nil_r.
   change (N.of_nat (length bs)) with (len bs).
@@ -1665,7 +1686,7 @@ Qed.
 Lemma GQ_closed fin (fp : st -> Prop) n s : (forall f, fp f -> unfinished_step f = false) ->
   GQ fin fp [] n s -> s_stk s = [] /\ unfinished_step (s_step s) = false.
 Proof.
-  intros Hu [[f [pcs [cx [bnd [al [Hf [Hn ->]]]]]]]|[_ [g [_ [f [pcs [cx [bnd [al [Hf [Hn ->]]]]]]]]]]].
+  intros Hu [[f [pcs [cx [bnd [al [Hf [Hn [Hni ->]]]]]]]]|[_ [g [_ [f [pcs [cx [bnd [al [Hf [Hn [Hni ->]]]]]]]]]]]].
   - split; [reflexivity|]. cbn [s_step]. apply Hu. exact Hf.
   - split; [reflexivity|]. cbn [s_step]. destruct Hf as [-> | ->]; reflexivity.
 Qed.
@@ -1801,7 +1822,7 @@ Proof.
     cbn [app]. eapply LTr_cons; [apply L_newline|apply Iw].
   - destruct (ch c 35); [apply Iw|]. destruct (is_nl c); [exact Hnl2|apply Iw].
   - destruct (is_nl c); [exact Hnl2|apply Iw].
-  - destruct (ch c 35); [exact Hblk|apply LTr_nil; auto].
+  - destruct (ch c 35); [apply Iw|apply LTr_nil; auto].
   - destruct (ch c 35); [exact Hblk|apply Iw].
 Qed.
 Lemma L_nls stk root w : forall q, LTr (LS stk root) (nls q w) (LS stk root).
